@@ -103,6 +103,8 @@ def _create_task_post(c):
            cur.f('$created_vt', t) == vt(pre), cur.f('_job', t) == NONE]
     for f in ('_state', '_exception', '_result', '$cancel_req', '$created_vt', '_job', '$wjob', '$twin', '$sd_of'):
         out.append(unchanged_field(pre, cur, f, lambda o: o == t))
+    o_ = q()
+    out.append(ForAll([o_], Implies(And(Not(pre.alive(o_)), cur.alive(o_)), o_ == t), patterns=[cur.alive(o_)]))
     if cc.qualname == 'Window.run_job.<locals>.wrapped':
         out += [cur.f('$wjob', t) == captured['job'], cur.f('$twin', t) == captured['self'],
                 cur.f('$sd_of', t) == NONE, cur.H('$shut') == pre.H('$shut')]
@@ -140,6 +142,7 @@ def _wait_post(c):
     first = c.a.return_when == L.str_const('FIRST_COMPLETED')
     D, P = cur.elems(done), cur.elems(pend)
     vt0 = vt(c.pre)
+    cur.g['$last-wait-vt'] = vt(cur)
     out = [
         Not(pre.alive(done)), Not(pre.alive(pend)), cur.alive(done), cur.alive(pend), done != pend,
         isa['set'](done), isa['set'](pend),
@@ -148,6 +151,7 @@ def _wait_post(c):
         ForAll([x], Implies(Select(D, x), tstate(cur, x) != S_PENDING), patterns=[Select(D, x)]),
         ForAll([x], Implies(Select(P, x), tstate(cur, x) == S_PENDING), patterns=[Select(P, x)]),
         old_sets_unchanged(pre, cur),
+        allocates_only(pre, cur, 'set'),
         # FIRST_COMPLETED: an empty done set means the timeout elapsed
         Implies(And(first, Not(Exists([x], Select(D, x)))),
                 And(tau != NONE, vt(cur) >= vt0 + L.numval(tau))),
